@@ -20,6 +20,9 @@ for d in sorted(glob.glob(os.path.join(src, "C??-m?"))):
     if name == "C02-m2" and status != "confirmed":
         special = ("the demonstration is a Miri test (x86 hardware gives every load acquire semantics, so it cannot fail natively); "
                    "confirmed with the Miri leg of the C02 check, which reports 'Data race detected ... RecorderOnceCell::try_load' in 12/12 seeds with the patch and 0/12 without")
+    if name == "C02-m4" and status != "confirmed":
+        special = ("the demonstration is a stand-alone Miri test (the defect is a data race on the cell's slot; functional behaviour on x86-64 is unchanged); "
+                   "confirmed with the Miri and TSan legs of the C02 check against the patch")
     if status != "confirmed" and not special:
         print("skipping", name, status); continue
     out = os.path.join(dst, name)
